@@ -756,6 +756,62 @@ pub extern "C" fn harness_irq() -> i32 {
     harness_irq_step()
 }
 
+// ---------------------------------------------------------------------------------------------
+// Virtual-time task scheduler (C18).  Up to two tasks, each sleeping a list of symbolic cycle counts and
+// emitting one event per resumption, driven by run_for with a list of symbolic budgets.  The same task
+// set is run twice, under two budget partitions (inputs 830.. and 840..), so that z3 can decide that
+// wake-up cycles, order and delivered events do not depend on the partition.
+// Inputs: 800 task count (concrete), 801/802 sleeps per task (concrete <= 3), 810+4*t+i sleep i of task t,
+// 820/821 budget counts of run A / run B (concrete <= 4), 830+i / 840+i budgets.
+// Outputs (64-bit): run r (0/1): 1000*(r+1) + seq -> (task*16 + step) << 32 | wake cycle low 32 bits, in wake order;
+// 32-bit: 100*(r+1) + 3*b -> event code of budget b, +1 cycles_executed, +2 clock after; 150*(r+1) + b -> wake-ups so far.
+use sc62015_core::async_driver::{current_cycle, emit_event, sleep_cycles, AsyncDriver, DriverEvent};
+use std::cell::Cell;
+
+thread_local! {
+    static WAKE_SEQ: Cell<u32> = const { Cell::new(0) };
+}
+
+fn async_run(run: u32, budgets_at: u32, nbudgets: u32) {
+    WAKE_SEQ.with(|c| c.set(0));
+    let mut drv = AsyncDriver::new();
+    let ntasks = vin(800);
+    for t in 0..ntasks {
+        let n = vin(801 + t);
+        let d = [vin(810 + 4 * t) as u64, vin(811 + 4 * t) as u64, vin(812 + 4 * t) as u64];
+        drv.spawn(async move {
+            for i in 0..n {
+                sleep_cycles(d[i as usize]).await;
+                let seq = WAKE_SEQ.with(|c| {
+                    let v = c.get();
+                    c.set(v + 1);
+                    v
+                });
+                vout64(1000 * (run + 1) + seq, (((t * 16 + i) as u64) << 32) | (current_cycle() & 0xFFFF_FFFF));
+                emit_event(DriverEvent::User(t * 16 + i));
+            }
+        });
+    }
+    for b in 0..nbudgets {
+        let r = drv.run_for(vin(budgets_at + b) as u64);
+        let code = match r.event {
+            DriverEvent::MaxCycles => 0xFFFF,
+            DriverEvent::User(v) => v,
+        };
+        vout(100 * (run + 1) + 3 * b, code);
+        vout(100 * (run + 1) + 3 * b + 1, r.cycles_executed as u32);
+        vout(100 * (run + 1) + 3 * b + 2, drv.clock() as u32);
+        vout(150 * (run + 1) + b, WAKE_SEQ.with(|c| c.get()));
+    }
+}
+
+#[no_mangle]
+pub extern "C" fn harness_async() -> i32 {
+    async_run(0, 830, vin(820));
+    async_run(1, 840, vin(821));
+    0
+}
+
 /// Entry-point dispatch for the native replay binary.
 pub fn dispatch(name: &str) -> i32 {
     match name {
@@ -767,6 +823,7 @@ pub fn dispatch(name: &str) -> i32 {
         "harness_lcd_op" => harness_lcd_op(),
         "harness_lcd_pixels" => harness_lcd_pixels(),
         "harness_mem" => harness_mem(),
+        "harness_async" => harness_async(),
         "harness_irq" => harness_irq(),
         "harness_opcode_entry" => harness_opcode_entry(),
         "harness_consts" => harness_consts(),
